@@ -34,6 +34,20 @@ class _QuietLogging(object):
     return lambda *a, **k: None
 
 
+def _sym_fraction(numerator=0, denominator=None):
+  """fractions.Fraction for instrumented modules: symbolic arguments are
+  concretised (forked over their feasible values) first."""
+  import fractions  # pylint: disable=g-import-not-at-top
+  from engine import symex  # pylint: disable=g-import-not-at-top
+  if symex.is_sym(numerator):
+    numerator = numerator.__index__()
+  if symex.is_sym(denominator):
+    denominator = denominator.__index__()
+  if denominator is None:
+    return fractions.Fraction(numerator)
+  return fractions.Fraction(numerator, denominator)
+
+
 class RealEnv(object):
   mode = 'real'
 
@@ -90,6 +104,8 @@ class SymEnv(object):
           m.np = nplite
         except ImportError:
           pass
+      if hasattr(m, 'Fraction'):
+        m.Fraction = _sym_fraction
       if hasattr(m, 'pretty_midi') and k.endswith('.midi_io'):
         from engine import pmlite  # pylint: disable=g-import-not-at-top
         m.pretty_midi = pmlite
